@@ -701,7 +701,12 @@ Proof.
       * apply srcs_frame; [exact I|reflexivity].
     + (* Listeners *)
       apply Inv_build; auto; try lia; try (intros; discriminate).
-      * split; [trivial|intros; discriminate].
+      * split; [|intros; discriminate]. cbn. intros ls Hnd Hal. unfold tbl_count, tbl_for.
+        assert (Hincl : incl ls (map e_id (filter (fun e => e_ev e =? ev) (tbl s)))).
+        { intros l Hl. destruct (Hal l Hl) as (kd & Ha). apply (inv_tbl _ I) in Ha.
+          apply in_map_iff. exists (mkE l ev kd). split; [reflexivity|]. apply filter_In. split; [exact Ha|].
+          cbn. apply N.eqb_refl. }
+        pose proof (NoDup_incl_length Hnd Hincl) as Hlen. rewrite map_length in Hlen. lia.
       * apply tbl_same; [exact I| |]; intros; discriminate.
       * apply (inv_nodup _ I).
       * apply canc_keep, I.
@@ -1292,11 +1297,26 @@ Section Spec.
       eapply (li_close_final _ _ _ L); eauto.
   Qed.
 
+  Lemma spec_count_lower_bound : count_lower_bound (obs h).
+  Proof.
+    intros g i ev n ts te ls Hs He Hnd Hall. apply in_obs in Hs, He. destruct Hs as [Hs _], He as [He _].
+    destruct (li_end _ _ _ L _ _ _ _ _ He) as (tc & Hlt & Hc & Hst). cbn in Hc. specialize (Hst _ _ Hs).
+    apply (li_counted _ _ _ L _ _ _ Hc ls Hnd). intros l Hl.
+    destruct (Hall l Hl) as (ga & ia & ta & Ha & Hlta & Hrm). apply in_obs in Ha. destruct Ha as [Ha _].
+    destruct (li_end _ _ _ L _ _ _ _ _ Ha) as (tca & Hltca & Hca & _). cbn in Hca.
+    exists Persistent, tca. split; [exact Hca|]. split; [lia|]. intros trm Hr. right.
+    destruct (li_removed_why _ _ _ L _ _ _ Hr) as [(g' & i' & ts' & Hs' & Hlt')|(c' & k' & td & Hd & Hlt')].
+    - assert (te < ts') by (eapply Hrm, in_obs; eauto). lia.
+    - destruct (deliv_facts _ _ _ _ _ _ Hd) as (_ & _ & ta2 & _ & _ & Ha2 & _).
+      destruct (added_unique _ _ _ _ _ _ _ Hca Ha2) as (_ & _ & E). discriminate E.
+  Qed.
+
   Lemma spec_all : delivery_spec (obs h).
   Proof.
     split; [apply spec_at_most_once|]. split; [apply spec_must_deliver|].
     split; [apply spec_must_not_deliver|]. split; [apply spec_once_not_again|].
-    split; [apply spec_source_order|]. split; [apply spec_right_listener|apply spec_closed_is_final].
+    split; [apply spec_source_order|]. split; [apply spec_right_listener|].
+    split; [apply spec_closed_is_final|apply spec_count_lower_bound].
   Qed.
 End Spec.
 
@@ -1431,10 +1451,46 @@ Proof.
     + rewrite N.eqb_refl. cbn. rewrite Nat.eqb_refl. apply orb_true_r.
 Qed.
 
+Lemma dedup_in l x : In x (dedup l) -> In x l.
+Proof.
+  induction l as [|y r IH]; cbn; [tauto|]. destruct (existsb (fun z => z =? y) r); cbn; intuition.
+Qed.
+
+Lemma dedup_nodup l : NoDup (dedup l).
+Proof.
+  induction l as [|y r IH]; cbn; [constructor|].
+  destruct (existsb (fun z => z =? y) r) eqn:E; [exact IH|]. constructor; [|exact IH].
+  intros Hin. apply dedup_in in Hin.
+  assert (existsb (fun z => z =? y) r = true); [|congruence].
+  apply existsb_exists. exists y. split; [exact Hin|apply N.eqb_refl].
+Qed.
+
+Lemma count_sound h : count_lower_bound h -> forallb (ok_count h) h = true.
+Proof.
+  intros H. apply forallb_forall. intros [te r] H1. unfold ok_count. cbn [snd fst].
+  destruct r; trivial. destruct o; trivial.
+  apply forallb_forall. intros [ts r2] H2. cbn [snd fst]. destruct r2; trivial. destruct o; trivial.
+  match goal with |- (if ?b then _ else _) = true => destruct b eqn:E2 end; trivial.
+  repeat (apply andb_prop in E2; destruct E2 as [E2 ?]).
+  apply Nat.eqb_eq in E2. subst g0.
+  match goal with Hk : (i0 =? i) = true |- _ => apply N.eqb_eq in Hk; subst i0 end.
+  match goal with Hk : (ev0 =? ev) = true |- _ => apply N.eqb_eq in Hk; subst ev0 end.
+  apply N.leb_le. eapply H; [exact H2|exact H1|apply dedup_nodup|].
+  intros l Hl. unfold surely_registered in Hl. apply dedup_in, in_flat_map in Hl.
+  destruct Hl as ([ta r3] & H3 & Hl). cbn [snd fst] in Hl.
+  destruct r3; try contradiction. destruct o; try contradiction. destruct kd; try contradiction.
+  match type of Hl with In _ (if ?b then _ else _) => destruct b eqn:E3 end; [|contradiction].
+  destruct Hl as [<-|[]].
+  repeat (apply andb_prop in E3; destruct E3 as [E3 ?]).
+  apply N.eqb_eq in E3. subst ev0.
+  exists g0, i0, ta. split; [exact H3|]. split; [apply N.ltb_lt; assumption|].
+  apply no_remove_before_spec. assumption.
+Qed.
+
 Theorem history_ok_sound h : delivery_spec h -> history_ok h = true.
 Proof.
-  intros (H1 & H2 & H3 & H4 & H5 & H6 & H7). unfold history_ok.
-  rewrite amo_sound, must_sound, mustnot_sound, once_sound, order_sound, right_sound, close_sound by assumption.
+  intros (H1 & H2 & H3 & H4 & H5 & H6 & H7 & H8). unfold history_ok.
+  rewrite amo_sound, must_sound, mustnot_sound, once_sound, order_sound, right_sound, close_sound, count_sound by assumption.
   reflexivity.
 Qed.
 
@@ -1591,5 +1647,5 @@ Theorem verdict_bad_iff h : verdict_bad h = [] <-> history_ok h = true.
 Proof.
   unfold verdict_bad, history_ok. rewrite !andb_true_iff, <- !bad_nil. split.
   - intros H. repeat (apply app_eq_nil in H; destruct H as [? H]). tauto.
-  - intros [[[[[[H1 H2] H3] H4] H5] H6] H7]. rewrite H1, H2, H3, H4, H5, H6, H7. reflexivity.
+  - intros [[[[[[[H1 H2] H3] H4] H5] H6] H7] H8]. rewrite H1, H2, H3, H4, H5, H6, H7, H8. reflexivity.
 Qed.
